@@ -113,6 +113,144 @@ def rule_b_seq(chk, prog, reach):
     return n
 
 
+def rule_seqstamp(chk, prog):
+    """K11-seqstamp: the block writer lays blocks out in the order of their I/O sequence numbers, and a file's data blocks
+    take theirs when they leave the pool.  A fragment block that is submitted from the backend, in the middle of that
+    stream, must be written before the data blocks that leave the pool after its submission -- so it takes its number
+    at the moment it is handed to enqueue_block(), not when it comes back: every such hand-over is dominated by a store
+    to that block's io_seq_num."""
+    n = 0
+    from ..anchors import submitter
+    subs = submitter(prog)
+    names = {f.name for f in subs}
+    for f in prog.functions():
+        if f.decl or not f.unit.src.startswith("lib/sqfs/src/block_processor/"):
+            continue
+        f.build()
+        for c in f.calls():
+            t = prog.fn(c.callee or "", f.unit) if c.callee else None
+            if t is None or t.name not in names or len(c.ops) < 2:
+                continue
+            blk = strip_casts(c.ops[1])
+            src = [x for x in backward_slice(blk, phi_control=False, limit=40) if x.is_inst and x.op == "load" and
+                   strip_casts(x.ops[0]).is_inst and strip_casts(x.ops[0]).op == "getelementptr" and strip_casts(x.ops[0]).field() and
+                   strip_casts(x.ops[0]).field()[1] == "frag_block"]
+            if not src and not (blk.is_inst and blk.op == "load" and False):
+                continue
+            n += 1
+            chk.analysed(f)
+            inst = "%s:frag_block->%s@%d" % (f.name, t.name, c.line)
+            stamped = False
+            for i in f.insts():
+                if i.op != "store":
+                    continue
+                q = strip_casts(i.ops[1])
+                if q.is_inst and q.op == "getelementptr" and q.field() and q.field()[1] == "io_seq_num" and \
+                        q.field()[0].startswith("struct.sqfs_block_t") and f.inst_dominates(i, c):
+                    base = strip_casts(q.ops[0])
+                    def from_frag(v):
+                        vs = [v] + list(backward_slice(v, phi_control=False, limit=40))
+                        return any(x.is_inst and x.op == "load" and strip_casts(x.ops[0]).is_inst and
+                                   strip_casts(x.ops[0]).op == "getelementptr" and strip_casts(x.ops[0]).field() and
+                                   strip_casts(x.ops[0]).field()[1] == "frag_block" for x in vs)
+                    if base is blk or from_frag(base):
+                        stamped = True
+            if stamped:
+                chk.ok("K11-seqstamp", inst, c, "the fragment block takes its I/O sequence number when it is submitted")
+            else:
+                chk.violation("K11-seqstamp", inst, c, "the fragment block is submitted without an I/O sequence number of its own: "
+                              "it is numbered when it comes back from the pool, behind data blocks that were numbered in the "
+                              "meantime, and is written into the middle of a file's block run")
+    return n
+
+
+STICKY_SETTERS = {"deflateParams", "ZSTD_CCtx_setParameter", "ZSTD_CCtx_setPledgedSrcSize", "lzma_filters_update",
+                  "LZ4_resetStream", "deflateSetDictionary", "deflateTune"}
+CODEC_RUN = {"deflate", "ZSTD_compress2", "ZSTD_compressCCtx", "lzma_code", "BZ2_bzCompress", "LZ4_compress_fast_continue"}
+
+
+def rule_codec_params(chk, prog):
+    """K3-params: the bytes a worker's compressor produces for a block depend on the block and the configuration only.
+    Library parameters that survive a reset of the stream (deflateParams ...) are therefore set either on every
+    compressing path of do_block or on none, *for one and the same configuration*: among the paths that reach the
+    library's compression call under the same outcomes of the conditions on the compressor object's own fields, the
+    ones that set such a parameter (directly or in a helper) and the ones that do not must not both exist -- otherwise a
+    block is compressed with whatever the previous block of that worker left behind."""
+    from .c13 import _e7_walk
+    n = 0
+
+    class _S:
+        pass
+    for f in sorted(prog.slot_impls(("struct.sqfs_compressor_t", "do_block")), key=lambda x: x.qname):
+        if f.decl:
+            continue
+        f.build()
+        runs = [c for c in f.calls() if norm_callee(c.callee) in CODEC_RUN]
+        if not runs:
+            continue
+
+        def sets_sticky(c, depth=0):
+            nm = norm_callee(c.callee)
+            if nm in STICKY_SETTERS:
+                return True
+            if c.callee and depth < 3:
+                t = prog.fn(c.callee, f.unit)
+                if t is not None and not t.decl and t.unit is f.unit:
+                    t.build()
+                    return any(sets_sticky(x, depth + 1) for x in t.calls())
+            return False
+        if not any(sets_sticky(c) for c in f.calls()):
+            continue
+        n += 1
+        chk.analysed(f)
+        obj = f.params[0]
+
+        def config_cond(cond):
+            """the condition looks at fields of the compressor object only"""
+            sl = [cond] + list(backward_slice(cond, phi_control=False, limit=60))
+            insts = [x for x in sl if x.is_inst]
+            if any(x.op in ("call", "phi") for x in insts):
+                return False
+            for x in insts:
+                for o in x.ops:
+                    if o.is_arg and o is not obj:
+                        return False
+            loads = [x for x in insts if x.op == "load"]
+            if not loads:
+                return False
+            for ld in loads:
+                b0 = strip_casts(resolve_ptr(prog, ld.ops[0], f.unit)[0])
+                if b0 is not obj:
+                    return False
+            return True
+        st = _S()
+        st.bb = f.blocks[0]
+        groups = {}
+        for (v, r, path) in _e7_walk(prog, f, st, None, [], set()):
+            if not any(c.bb in path for c in runs):
+                continue
+            cut = max(path.index(c.bb) for c in runs if c.bb in path)
+            sig = []
+            for k in range(cut):
+                b = path[k]
+                t = b.term
+                if t.op == "br" and len(t.x["succ"]) == 2 and config_cond(t.ops[0]):
+                    sig.append((t.line, t.col if hasattr(t, "col") else 0, path[k + 1] is t.x["succ"][0]))
+            called = any(sets_sticky(c) for b in path[:cut + 1] for c in b.insts if c.op == "call")
+            groups.setdefault(tuple(sig), set()).add(called)
+        mixed = [sig for sig, vals in groups.items() if len(vals) == 2]
+        inst = "%s:sticky-parameters" % f.name
+        if not mixed:
+            chk.ok("K3-params", inst, runs[0], "for every configuration the persistent library parameters are set on all "
+                   "compressing paths or on none (%d configurations, %d paths)" % (len(groups), sum(len(v) for v in groups.values())))
+        else:
+            chk.violation("K3-params", inst, runs[0], "under one and the same configuration some paths to the compression call set "
+                          "the library's persistent parameters (strategy / level) and others do not: a block that takes the "
+                          "second kind of path is compressed with what the previous block of that worker left in the stream, so "
+                          "the bytes depend on which worker picked it up")
+    return n
+
+
 def rule_c_env(chk, progs):
     seen = set()
     for tool, prog in progs.items():
@@ -279,6 +417,10 @@ def run(chk):
     prog = load_program("gensquashfs")
     reach = rule_a_confinement(chk, prog)
     rule_b_seq(chk, prog, reach)
+    rule_seqstamp(chk, prog)
+    rule_codec_params(chk, prog)
+    chk.floor("K3-params", 1)
+    chk.floor("K11-seqstamp", 2)
     rule_c_env(chk, {"gensquashfs": prog, "tar2sqfs": load_program("tar2sqfs")})
     rule_d_comparators(chk, prog)
     rule_e_siblings(chk)
